@@ -350,7 +350,10 @@ func c10Check(c *Ctx, v string) (accepted bool) {
 		if r1 != nil {
 			d = r1.DNSRewrite
 		}
-		if want, got := c10RefClass(c10ValueOf(v)), c10GotClass(d, e1); !(r1 != nil && e1 == nil && d == nil) && !c10ClassAgrees(want, got) {
+		// (with further modifiers behind the value a rejection may be theirs: the class is then judged on accepted rules only)
+		if want, got := c10RefClass(c10ValueOf(v)), c10GotClass(d, e1); (c10UnescapedComma(v) >= 0 && e1 != nil) {
+			// nothing to compare
+		} else if !(r1 != nil && e1 == nil && d == nil) && !c10ClassAgrees(want, got) {
 			c.Run.Violate(ev.Violation{Pred: "class-determined-by-text", Sig: map[string]any{"value": v},
 				What: fmt.Sprintf("%q parses as %s (%+v, err %v), the documented grammar says %s", text, got, d, e1, want), Replay: map[string]any{"value": v}})
 		}
